@@ -186,7 +186,7 @@ def check_bec2(case, rec):
 
 
 def strat_bf3(tier):
-    mx = 2048 if tier == "quick" else 32768
+    mx = 6144 if tier == "quick" else 32768
     comp = st.one_of(S.plain_component(mx), S.plain_component(mx), S.enc_component(512))
     return st.fixed_dictionaries(dict(
         comments=S.comment_list(4),
